@@ -140,7 +140,11 @@ def check_load_once(prog, name):
     key = "%s:load-once" % name
     if f is None:
         return [bad(RULE, key, "", "%s not found" % name)]
-    loads = [b for b, t in f.calls() if (t.get("fn") or "").endswith("ImportResolver::load_file_contents") and not f.is_cleanup(b)]
+    is_load = lambda c: c.endswith("ImportResolver::load_file_contents")
+    # the read may sit in a private helper of State (e.g. one shared by the import functions)
+    loads = [b for b, t in f.calls() if not f.is_cleanup(b) and (is_load(t.get("fn") or "") or
+             ((t.get("res") or t.get("fn") or "").startswith(EV + "State::") and (t.get("res") or t.get("fn")) != f.path and
+              prog.reaches_call(t.get("res") or t.get("fn"), is_load, depth=1)))]
     if len(loads) != 1:
         return [bad(RULE, key, site(f), "expected one load_file_contents call, found %d" % len(loads))]
     lb = loads[0]
@@ -229,7 +233,8 @@ def check_cli_paths(prog):
     key = "cli:jpath-order"
     if f is None:
         return [bad(RULE, key, "", "MiscOpts::import_resolver not found")]
-    rev = [b for b, t in f.calls() if (t.get("fn") or "").endswith("<impl [T]>::reverse") and not f.is_cleanup(b)]
+    # reversal of the -J list: in place (`v.reverse()`) or while copying (`iter().rev()`)
+    rev = [b for b, t in f.calls() if ((t.get("fn") or "").endswith("<impl [T]>::reverse") or (t.get("fn") or "").endswith("Iterator::rev")) and not f.is_cleanup(b)]
     ext = [b for b, t in f.calls() if (t.get("fn") or "").endswith("Extend::extend") and not f.is_cleanup(b)]
     if len(rev) != 1 or len(ext) != 1:
         return [bad(RULE, key, site(f), "expected one reverse() and one extend(JSONNET_PATH), found %d / %d" % (len(rev), len(ext)))]
